@@ -43,7 +43,10 @@ func HarnessC02a() {
 	cache := mkCache(verifBound("CACHE"))
 	cfg := symConfig(st, cache)
 	cfgNoCache := symConfig(st, nil)
-	base, err := NewRoot(&CreateRemoteOptions{BranchFactor: bf}).LoadMast(vctx, cfg)
+	fm := verifBoundOr("FMT", 0) // 0 binary, 1 v1marshaler (raw two-stage decode), 2 v1marshaler (registered types)
+	cfg.UnmarshalerUsesRegisteredTypes = fm == 2
+	cfgNoCache.UnmarshalerUsesRegisteredTypes = fm == 2
+	base, err := NewRoot(&CreateRemoteOptions{BranchFactor: bf, NodeFormat: fmtOf(fm)}).LoadMast(vctx, cfg)
 	verifAssert("C01.new.err", err == nil)
 	mdBase := &symModel{}
 	buildAscending("build", base, mdBase, N)
@@ -58,6 +61,7 @@ func HarnessC02a() {
 			// "restart": from here on the shared cache is a new one that fills by loading
 			cache = mkCache(verifBound("CACHE"))
 			cfg = symConfig(st, cache)
+			cfg.UnmarshalerUsesRegisteredTypes = fm == 2
 		}
 		base, err = r.LoadMast(vctx, cfg)
 		verifAssert("C01.load.err", err == nil)
